@@ -30,6 +30,30 @@ from .spy import SpyBackend
 from .tasklib import Value, ctx_view
 
 
+_DEVNULL = []
+
+
+def _devnull():
+    """One sink per interpreter, never closed (tqdm objects keep writing to it)."""
+    if not _DEVNULL:
+        _DEVNULL.append(open(os.devnull, 'w'))
+    return _DEVNULL[0]
+
+
+def make_tick_datetime():
+    from datetime import datetime as _dt, timedelta as _td
+
+    class TickDatetime(_dt):
+        _ticks = [0]
+
+        @classmethod
+        def now(cls, tz=None):
+            cls._ticks[0] += 1
+            return _dt(2030, 1, 1) + _td(milliseconds=137 * cls._ticks[0])
+
+    return TickDatetime
+
+
 class InjectedError(Exception):
     """Raised at an arbitrary executed line (C12)."""
 
@@ -519,7 +543,7 @@ def execute(sc: dict, ch: Choices, storage_dir: Optional[str]) -> Outcome:
     probe = RunProbe(rec, sc, sim, s1=(backend == 'sim'))
     ctl = StorageCtl(rec, sim, sc, probe)
 
-    storage_kind = sc.get('storage', 'simlocal' if sim is not None else 'local')
+    storage_kind = sc.get('storage', 'simlocal')
     sim_storage = None
     if storage_dir is None or storage_kind == 'none':
         storage_arg: Any = None
@@ -551,6 +575,15 @@ def execute(sc: dict, ch: Choices, storage_dir: Optional[str]) -> Outcome:
         raise ValueError(backend)
 
     saved_logger = quiet_logger(rec)
+    tick_patch = None
+    if sim is None and not sc.get('real_clock'):
+        # S0/S1: result_meta timestamps come from a deterministic ticking clock
+        import labtech.runners.base as base_mod
+        if not hasattr(base_mod, 'datetime'):
+            from .sim import HarnessError
+            raise HarnessError('seam missing: labtech.runners.base.datetime')
+        tick_patch = (base_mod, base_mod.datetime)
+        base_mod.datetime = make_tick_datetime()
     old_probe = probe_mod.ACTIVE
     probe_mod.set_active(probe)
     ip = None
@@ -625,10 +658,10 @@ def execute(sc: dict, ch: Choices, storage_dir: Optional[str]) -> Outcome:
     import sys as _sys
     real_stderr = _sys.stderr
     if show and sim is None:
-        devnull = open(os.devnull, 'w')
+        devnull = _devnull()
         _sys.stderr = devnull
     elif show and sim is not None:
-        devnull = open(os.devnull, 'w')
+        devnull = _devnull()
         simos._real_streams['stderr'] = devnull
         _sys.stderr._fallback = devnull
 
@@ -689,9 +722,10 @@ def execute(sc: dict, ch: Choices, storage_dir: Optional[str]) -> Outcome:
             simos.uninstall()
             out.leaked_threads = getattr(sim, 'leaked', 0)
         restore_logger(saved_logger)
+        if tick_patch is not None:
+            tick_patch[0].datetime = tick_patch[1]
         if devnull is not None:
             _sys.stderr = real_stderr
-            devnull.close()
         if sim_storage is not None:
             sim_storage.release()
 
